@@ -92,17 +92,32 @@ def rule_initial(ctx: Ctx):
     node = ctx.fn(f"{CLS}._initial_node")
     edge = ctx.fn(f"{CLS}._initial_edge")
     nid = None
+    dgm = ctx.p.cls(CLS)
+
+    def _const(t):
+        """A string literal, or a class-level string constant read through self."""
+        if isinstance(t, ast.Constant) and isinstance(t.value, str):
+            return t.value
+        if isinstance(t, ast.Attribute) and isinstance(t.value, ast.Name) and t.value.id == "self":
+            v_ = dgm.class_assigns.get(t.attr)
+            if isinstance(v_, ast.Constant) and isinstance(v_.value, str):
+                return v_.value
+        return None
+
     for p in ctx.paths(node, inline=None, exc_edges="none"):
         for e in p.calls():
-            if show(e.term.func) == "pydot.Node" and e.term.args and isinstance(e.term.args[0], ast.Constant):
-                nid = e.term.args[0].value
+            if show(e.term.func) == "pydot.Node" and e.term.args and _const(e.term.args[0]) is not None:
+                nid = _const(e.term.args[0])
         rep.check(p.kind == "return" and xshow(p.value, p.events).startswith("pydot.Node("), "C18.initial", node.loc(), "the pseudo-node is a pydot node", node.key,
                   f"return {xshow(p.value, p.events)}")
     for p in ctx.paths(edge, inline=None, exc_edges="none"):
         v = expand(p.value, p.events) if p.kind == "return" else None
-        ok = isinstance(v, ast.Call) and show(v.func) == "pydot.Edge" and len(v.args) >= 2 and isinstance(v.args[0], ast.Constant) and v.args[0].value == nid \
+        ok = isinstance(v, ast.Call) and show(v.func) == "pydot.Edge" and len(v.args) >= 2 and nid is not None and _const(v.args[0]) == nid \
             and show(v.args[1]) == "self.machine.initial_state.id"
         rep.check(bool(ok), "C18.initial", edge.loc(), "the pseudo-edge goes from the pseudo-node to the machine's initial state", edge.key, f"return {show(v)}")
+    # one node per state *plus* the pseudo-node: its name must not be a possible state id (state ids are attribute names)
+    rep.check(nid is not None and not nid.isidentifier(), "C18.initial", node.loc(), "the pseudo-node's name cannot be the id of a state (it is not a "
+              "valid identifier): a state of that name would be merged with it by Graphviz", node.key, f"pseudo-node name {nid!r}")
 
 
 def rule_edge(ctx: Ctx):
